@@ -38,7 +38,7 @@ func (c02) NumCases(tier string, _ int64) int {
 	if tier == "thorough" {
 		return 20000
 	}
-	return 1200
+	return 3000
 }
 func (c02) Exhaustive(string) bool { return false }
 func (c02) Floors(string) []runner.Floor {
